@@ -37,7 +37,7 @@ def Saved.has (s : Saved) (n : Name) : Bool := s.files.any (·.1 == n)
 
 /-- `check_auto_save` for a transfer that has just become complete -/
 def autoSave (globOk : Name → Bool) (s : Saved) (serial : Nat) (name : Name) (data : List Nat) : Saved :=
-  if !data.isEmpty && globOk name then
+  if globOk name then
     let t := targetName serial name
     if s.has t then s else { files := s.files ++ [(t, data)] }
   else s
